@@ -2999,9 +2999,10 @@ def classify_scheduler(ctx, W):
                                     any(z.get('kind') == 'ContinueStmt' for z in tu.walk(tu.kids(y)[1])) for y in tu.walk(body))
                 guards = [tu.kids(y)[0] for y in tu.walk(body) if y.get('kind') == 'IfStmt' and len(tu.kids(y)) >= 2 and
                           any(z.get('kind') in ('BreakStmt', 'ReturnStmt') for z in tu.walk(tu.kids(y)[1]))]
-                if keeps_running and guards and mentions(body, checkers):
+                leaves = any(z.get('kind') in ('BreakStmt', 'ReturnStmt') for z in tu.walk(body))
+                if keeps_running and leaves and mentions(body, checkers):
                     drains.add(f['q'])
-                    drain_loops.setdefault(f['q'], []).append((f, L, guards[-1]))
+                    drain_loops.setdefault(f['q'], []).append((f, L, guards[-1] if guards else L))
                 continue
             if cond is None or not mentions(body, runners):
                 continue
